@@ -234,6 +234,24 @@ func c13RunList(r *vcore.Run, c c13ListCase) {
 	if res.Post != "" {
 		r.Violate("list", fp+"/consumer-called-after-stop", c, "no calls after stop/error", res.Post)
 	}
+	if c.ErrAfter < 0 {
+		// the backend's iterator value can be traversed again with the same result; so can the view's
+		// (the scope check below then covers the backend calls of both traversals)
+		r.Guard("list", fp+"/second-traversal", c, func() {
+			id := func(s string) string { return s }
+			twin := newRecBackend()
+			twin.Repos = c.Repos
+			direct := twin.Funcs().Repositories(ctx, c.Prefix+"/"+c.After)
+			d1, _, _ := consumeSeq(direct, c.StopAfter, id)
+			d2, _, _ := consumeSeq(direct, c.StopAfter, id)
+			seq := sub.Repositories(ctx, c.After)
+			s1, _, _ := consumeSeq(seq, c.StopAfter, id)
+			s2, e2, _ := consumeSeq(seq, c.StopAfter, id)
+			if strings.Join(d1, ",") == strings.Join(d2, ",") && (strings.Join(s1, ",") != strings.Join(s2, ",") || e2 != nil) {
+				r.Violate("list", fp+"/second-traversal-differs", c, strings.Join(s1, ","), fmt.Sprintf("%s err=%v", strings.Join(s2, ","), e2))
+			}
+		})
+	}
 	for _, cl := range backend.topCalls() {
 		got := ociauth.ScopeFromContext(cl.ctx)
 		if want := c13WantScope(c.Prefix, c.Scope); !got.Equal(want) {
